@@ -47,4 +47,10 @@ def subchecks(tier):
     exact_dec = system_subcheck("exact_decimal", dec, lambda spec: [Horizon()], lambda a, spec, res: a.get("events", 0) >= 20, classes=classes,
                                 n={"quick": 3600, "thorough": 30000}, abort_is_violation="C14",
                                 rule="exact arithmetic on a 0.1 grid with horizons that are decimal (non-dyadic) numbers: an event at Decimal('1.1') is strictly before the float 1.1")
-    return [base, region, exact_dec, fuzz_subcheck(base, tier)]
+    feed = system_subcheck("slot_feed", common.slot_feed_profile("C14", downstream="int", more_weights={"reneging": 0.7, "capacity": 0.5}, max_nodes=3,
+                                                                  node_kinds=("slotted", "int", "schedule")),
+                           lambda spec: [Horizon()], lambda a, spec, res: a.get("rec_interrupted_service", 0) >= 1 and a.get("events", 0) >= 40,
+                           classes=classes, n={"quick": 3000, "thorough": 20000}, abort_is_violation="C14",
+                           rule="capacitated pre-emptive slotted node feeding ordinary and scheduled nodes (reneging, blocking downstream): "
+                                "customers that were interrupted and resumed keep being owed their events")
+    return [base, region, exact_dec, feed, fuzz_subcheck(base, tier)]
